@@ -1387,6 +1387,25 @@ func IsLoopBound(l Lit) bool {
 	return false
 }
 
+// PositiveOrder rewrites a negated order comparison as the complementary positive one: !(a >= b) is a < b, and so on.
+// Other literals are returned unchanged.
+func PositiveOrder(l Lit) Lit {
+	if l.Kind != "cmp" || l.Pol {
+		return l
+	}
+	switch l.Op {
+	case token.LSS:
+		l.Op, l.Pol = token.GEQ, true
+	case token.LEQ:
+		l.Op, l.Pol = token.GTR, true
+	case token.GTR:
+		l.Op, l.Pol = token.LEQ, true
+	case token.GEQ:
+		l.Op, l.Pol = token.LSS, true
+	}
+	return l
+}
+
 // LitsInter returns the guard literals of block b plus, when b's function is an
 // in-target helper with exactly one static call site, the literals guarding that
 // call site (one level up). Extracting a guarded block into a helper therefore
